@@ -250,9 +250,18 @@ impl Walrus {
                     }
                 }
             } else {
-                // No persisted tail; init at current active block start
-                persisted_tail = Some((active_block.id, 0));
-                if checkpoint {
+                // No persisted tail; init at the current active block, keeping the progress already
+                // committed in it. The provisional position is persisted only when the cursor enters
+                // the block: once reads have committed progress in it, persisting offset 0 again would
+                // rewind the consumer (an empty poll, or a crash before the next persist, redelivered
+                // every entry of the active block) and would restart the AtLeastOnce persist counter.
+                let start = if tail_snapshot.0 == active_block.id {
+                    tail_snapshot.1
+                } else {
+                    0
+                };
+                persisted_tail = Some((active_block.id, start));
+                if checkpoint && start == 0 {
                     if self.should_persist(&mut info, true) {
                         if let Ok(mut idx_guard) = self.read_offset_index.write() {
                             let _ =
